@@ -26,7 +26,7 @@ func reusedStreamer(col *Collector, r *RNG, tier string, prop string) {
 		var h1 *hist
 		for {
 			h1 = genHistory(r, o, allCfgs[i%len(allCfgs)])
-			if !h1.empty && h1.bias == 0 && !h1.crcmix && len(h1.ext["noise"]) == 0 {
+			if !h1.empty && h1.bias == 0 && !h1.crcmix && len(h1.noise) == 0 { // (noise packets are pre-built for one checksum setting)
 				break
 			}
 		}
